@@ -300,6 +300,19 @@ fn run_op(op: &Value) -> Value {
             apply_settings(&mut b, &op["settings"]);
             cps(&b.build())
         }
+        "from_file" => {
+            // the library's from_file on a scratch file with the given raw content: the builder's test cases and its default build()
+            let content: String = s_of(&op["content"]);
+            let dir = std::env::temp_dir().join(format!("grexverif-{}", std::process::id()));
+            std::fs::create_dir_all(&dir).unwrap();
+            let path = dir.join("input.txt");
+            std::fs::write(&path, content.as_bytes()).unwrap();
+            let mut b = grex::RegExpBuilder::from_file(&path);
+            let cases: Vec<Value> = h::test_cases(&b).iter().map(|c| cps(c)).collect();
+            let out = b.build();
+            let _ = std::fs::remove_dir_all(&dir);
+            json!([cases, cps(&out)])
+        }
         "build_twice" => {
             // two build() calls on the SAME builder, then one on a clone made in between
             let v: Vec<String> = op["cases"].as_array().unwrap().iter().map(s_of).collect();
